@@ -229,7 +229,7 @@ def _safety(name):
 
 
 _ALL_UNITS = ["take_range", "sort_take", "split_order", "window_frame", "dialect_select", "ident_quote", "ids_names", "toposort", "rq_tables",
-              "select_shape", "span_units", "sql_prec", "prql_prec", "literals", "set_ops", "desugar", "resolve_guards", "lex_strings", "limit_clause", "static_eval", "operator_tpl", "rel_names", "lower_cols", "vec_utils", "group_take", "flatten_sort", "star_exclude", "std_arity", "limit_select", "rq_shape", "star_cols", "func_env", "json_lits", "cte_define", "type_meet", "fmt_strings"]
+              "select_shape", "span_units", "sql_prec", "prql_prec", "literals", "set_ops", "desugar", "resolve_guards", "lex_strings", "limit_clause", "static_eval", "operator_tpl", "rel_names", "lower_cols", "vec_utils", "group_take", "flatten_sort", "star_exclude", "std_arity", "limit_select", "rq_shape", "star_cols", "func_env", "json_lits", "cte_define", "type_meet", "fmt_strings", "concat_ops"]
 prop("C12", _ALL_UNITS, select={u: _safety for u in _ALL_UNITS},
      not_covered="every function that is not under contract (~150 unwrap/expect sites, panic!(cannot find cid) in lookup_cid), "
                  "recursion depth, chumsky, time bounds")
@@ -242,7 +242,7 @@ claim("C12",
       "Preconditions (validated take bounds, operator arities as the resolver builds them, id counters below usize::MAX) are assumptions about call sites "
       "that are not themselves verified; RQ/PL supplied as JSON can violate them.")
 
-prop("C08", ["literals", "lex_strings", "json_lits"],
+prop("C08", ["literals", "lex_strings", "json_lits", "concat_ops"],
      not_covered="float text round trip, date/time/interval literals, f-string lowering, relation literal rows, "
                  "dialects whose string literals treat backslash as an escape (finding F9: not under contract)")
 claim("C08",
@@ -253,7 +253,7 @@ claim("C08",
       "text that is neither (LN1-3); the string lexer (parse_escape_sequence and the body of multi_quoted_string, verbatim): \\n \\r \\t \\b \\f \\\\ \\/ and the "
       "escaped quote denote the documented character and consume one character (ES2a), \\xHH and \\u{H..} with 1-6 digits denote the character with that code "
       "and consume exactly the escape (ES2b-c), an unescaped string opened by n quotes is the text up to the FIRST run of n quotes, verbatim (MQ2, any n, any "
-      "length), every loop terminates and only moves forward (ES1, ES4, MQ1, MQL). JSON values of from_text become literals of the same value without panicking, for every number serde_json can hold (json_lits JL1-4). NOT proved: float formatting round trip, backslash-escaping dialects, "
+      "length), every loop terminates and only moves forward (ES1, ES4, MQ1, MQL). JSON values of from_text become literals of the same value without panicking, for every number serde_json can hold (json_lits JL1-4). the operands handed to `||` / CONCAT for an f-string are exactly the flattened operands of the nested std.concat, in order (concat_ops CC1-2). NOT proved: float formatting round trip, backslash-escaping dialects, "
       "content of escaped strings beyond one escape.",
       "sqlparser's Display (leaves doubled quotes alone - read in its source, validated by the thorough-tier sweep on SQLite) and sqlformat (white space only, given "
       "its precondition) are trusted; str::parse, str::replace and format! are uninterpreted; date/time/interval arms are not under contract.")
